@@ -14,6 +14,10 @@ let n_of_int i = if i = 0 then N0 else Npos (pos_of_int i)
 let int_of_n = function N0 -> 0 | Npos p -> int_of_pos p
 let z_of_int i = if i = 0 then Z0 else if i > 0 then Zpos (pos_of_int i) else Zneg (pos_of_int (-i))
 let int_of_z = function Z0 -> 0 | Zpos p -> int_of_pos p | Zneg p -> - (int_of_pos p)
+(* 64-bit patterns (float64 bits) do not fit OCaml's 63-bit int: print them through Int64, unsigned *)
+let rec int64_of_pos = function
+  | Coq_xH -> 1L | Coq_xO p -> Int64.shift_left (int64_of_pos p) 1 | Coq_xI p -> Int64.logor (Int64.shift_left (int64_of_pos p) 1) 1L
+let bits_string z = match z with Z0 -> "0" | Zpos p -> Printf.sprintf "%Lu" (int64_of_pos p) | Zneg p -> "-" ^ Printf.sprintf "%Lu" (int64_of_pos p)
 let rec nat_of_int i = if i <= 0 then O else S (nat_of_int (i - 1))
 let int_of_nat n = let rec go acc = function O -> acc | S m -> go (acc + 1) m in go 0 n
 
@@ -280,6 +284,7 @@ let run_match dir total_less =
   let cur_words = ref (Hashtbl.create 1) and cur_docs = ref [] and cur_thr = ref (Float64.of_Z BinNums.Z0) in
   let case_corpus = ref 0 and case_t = ref None and case_diffs = ref (Hashtbl.create 1) in
   let case_g = ref [] in
+  let case_s = ref [] in
   iter_lines (fun line ->
     match fields line with
     | ["CORPUS"; id] -> cur_corpus := Some (int_of_string id); cur_words := Hashtbl.create 4096; cur_docs := []
@@ -301,8 +306,9 @@ let run_match dir total_less =
     | ["END"] -> (match !cur_corpus with
         | Some id -> Hashtbl.replace corpora id { thr = !cur_thr; words = !cur_words; docs = List.rev !cur_docs }
         | None -> ())
-    | ["CASE"; id] -> case_corpus := int_of_string id; case_t := None; case_diffs := Hashtbl.create 16; case_g := []
+    | ["CASE"; id] -> case_corpus := int_of_string id; case_t := None; case_diffs := Hashtbl.create 16; case_g := []; case_s := []
     | ["G"; key; rs] -> case_g := (key, rs) :: !case_g
+    | ["S"; key; s0; e0; cb; so; eo] -> case_s := (key, int_of_string s0, int_of_string e0, cb, int_of_string so, int_of_string eo) :: !case_s
     | "T" :: "IDS" :: rest ->
       (* T IDS a LINES b PSEUDO c Q q SUMS s  with possibly empty fields *)
       let rec grab acc = function
@@ -369,13 +375,26 @@ let run_match dir total_less =
                  Printf.sprintf "%d,%d,%d,%d,%d" (int_of_n r.SSet.src_start) (int_of_n r.SSet.src_end)
                    (int_of_n r.SSet.tgt_start) (int_of_n r.SSet.tgt_end) (int_of_n r.SSet.claimed)) m) in
              if ms <> rs then pr "G-MISMATCH(%s: code %s model %s) " k rs ms) (List.rev !case_g);
+         (* stage-level tie: score() of the code vs Match.score of the model, per recorded candidate *)
+         List.iter (fun (k, s0, e0, cb, so, eo) ->
+           match List.find_opt (fun d ->
+               String.concat "." (List.map (fun r -> string_of_int (int_of_n r)) d.Match.cd_key) = k) c.docs with
+           | None -> pr "S-UNKNOWN-DOC "
+           | Some d ->
+             (match Match.score cfg d (n_of_int s0) (n_of_int e0) with
+              | Match.Ok ((cf, mso), meo) ->
+                let mb = bits_string (Float64.to_bits cf) in
+                (* a rejected candidate is reported by the code with confidence 0 and offsets 0 *)
+                if mb <> cb || int_of_z mso <> so || int_of_z meo <> eo then
+                  pr "S-MISMATCH(%s %d-%d: code %s,%d,%d model %s,%d,%d) " k s0 e0 cb so eo mb (int_of_z mso) (int_of_z meo)
+              | Match.Err site -> pr "S-MODEL-ERR%d(%s %d-%d) " (int_of_nat site) k s0 e0)) (List.rev !case_s);
          (match Match.match_tokens cfg c.docs (List.map n_of_int ids) (List.map z_of_int lines)
                   (List.map z_of_int pseudo) tset with
           | Match.Err site -> pr "ERR%d" (int_of_nat site)
           | Match.Ok r ->
             List.iter (fun m ->
               pr_str m.Match.m_type; pr "/"; pr_str m.Match.m_name; pr "/"; pr_str m.Match.m_variant;
-              pr ":%d:%d-%d:%d-%d;" (int_of_z (Float64.to_bits m.Match.m_conf))
+              pr ":%s:%d-%d:%d-%d;" (bits_string (Float64.to_bits m.Match.m_conf))
                 (int_of_z m.Match.m_sl) (int_of_z m.Match.m_el) (int_of_z m.Match.m_st) (int_of_z m.Match.m_et))
               r.Match.r_matches;
             pr " total=%d" (int_of_z r.Match.r_total)));
